@@ -180,7 +180,7 @@ macro_rules! xcheck {
 /// `Call<Meth>` from an object holding `method` plus the optional members selected by MASK
 /// (bit 0 `parameters`, 1 `oneway`, 2 `more`, 3 `upgrade`, 4 an unknown member `x`) in the ORD-th
 /// order; all values symbolic.
-pub fn call_decode_order<const MASK: usize, const ORD: usize>(nd: &mut Nd) {
+pub fn call_decode_order<const MASK: usize, const ORD: usize, const CASE: usize>(nd: &mut Nd) {
     let (k, order) = layout(MASK, ORD, 6);
     let has_params = MASK & 1 != 0;
     let which = nd.below(4);
@@ -192,16 +192,15 @@ pub fn call_decode_order<const MASK: usize, const ORD: usize>(nd: &mut Nd) {
         2 => "org.example.Name",
         _ => "org.example.Nope",
     };
-    // spelling of the parameters member: 0 absent (by instance), 1 null, 2 {}, 3 fields
-    let spelling = if has_params { nd.range(1, 3) } else { 0 };
+    // Spelling of the parameters member, fixed by the instance (the *shape* of a member is
+    // concrete, its values are symbolic): 0 absent, 1 null, 2 {}, 3 {v: u32}, 4 {s: "ab"}.
+    let spelling = if has_params { CASE + 1 } else { 0 };
     let params = match spelling {
         0 => Val::Absent,
         1 => Val::Leaf(Leaf::Null),
         2 => Val::Obj(Obj::empty()),
-        _ => match which {
-            2 => Val::Obj(Obj::one("s", Leaf::Str(Txt::new("ab")))),
-            _ => Val::Obj(Obj::one("v", Leaf::Num(v as u64))),
-        },
+        3 => Val::Obj(Obj::one("v", Leaf::Num(v as u64))),
+        _ => Val::Obj(Obj::one("s", Leaf::Str(Txt::new("ab")))),
     };
     let (ow, oneway) = flag_val(nd, MASK & 2 != 0);
     let (mo, more) = flag_val(nd, MASK & 4 != 0);
@@ -221,12 +220,12 @@ pub fn call_decode_order<const MASK: usize, const ORD: usize>(nd: &mut Nd) {
     let expect: Option<Meth<'_>> = match (which, spelling) {
         (0, 0) | (0, 1) => Some(Meth::Ping),
         (1, 3) => Some(Meth::Set { v }),
-        (2, 3) => Some(Meth::Name { s: "ab" }),
+        (2, 4) => Some(Meth::Name { s: "ab" }),
         _ => None,
     };
-    // `{}` for a unit variant of a *user-defined* serde enum is the user's business (the property
-    // names the library's own types for that clause): no verdict either way.
-    let unconstrained = which == 0 && (spelling == 2 || spelling == 3);
+    // An object as content of a unit variant of a *user-defined* serde enum is the user's business
+    // (the property names the library's own types for that clause): no verdict either way.
+    let unconstrained = which == 0 && spelling >= 2;
     match (&r, expect) {
         (Ok(c), Some(e)) => {
             assert!(*c.method() == e, "C05.call_decodes_to_the_denoted_method");
@@ -239,10 +238,10 @@ pub fn call_decode_order<const MASK: usize, const ORD: usize>(nd: &mut Nd) {
         (Err(_), None) => {}
     }
     xcheck!(Call<Meth<'_>>, &m, r.is_ok());
-    if MASK & 14 == 14 {
+    if MASK & 14 == 14 && (!has_params || CASE == 2) {
         cover!(nd, r.is_ok() && oneway && more && upgrade, "all three flags set");
-    } else if MASK & 1 == 1 {
-        cover!(nd, r.is_ok() && which == 2, "borrowed string parameter");
+    } else if has_params && CASE >= 2 {
+        cover!(nd, r.is_ok() && which == CASE - 1, "call with parameters decoded");
     } else {
         cover!(nd, r.is_ok(), "call without parameters decoded");
     }
@@ -292,21 +291,25 @@ pub fn call_decode_strict<const MASK: usize, const ORD: usize>(nd: &mut Nd) {
 
 /// The library's own method type: `GetInfo` with `parameters` absent / null / `{}`,
 /// `GetInterfaceDescription` with its parameter. MASK: bit 0 `parameters`, bit 1 `more`.
-pub fn service_method_decode<const MASK: usize, const ORD: usize>(nd: &mut Nd) {
+pub fn service_method_decode<const MASK: usize, const ORD: usize, const CASE: usize>(nd: &mut Nd) {
     let (k, order) = layout(MASK, ORD, 3);
     let has_params = MASK & 1 != 0;
-    let which = nd.below(2);
-    let spelling = if has_params { nd.range(1, 3) } else { 0 };
+    // CASE = 2 * (spelling - 1) + which for instances with a parameters member, which otherwise
+    let which = CASE % 2;
+    let spelling = if has_params { CASE / 2 + 1 } else { 0 };
     let name = if which == 0 {
         "org.varlink.service.GetInfo"
     } else {
         "org.varlink.service.GetInterfaceDescription"
     };
+    let ib = [nd.ascii()];
+    nd.assume(ib[0].is_ascii_lowercase());
+    let iface = crate::nd::str_of(&ib);
     let params = match spelling {
         0 => Val::Absent,
         1 => Val::Leaf(Leaf::Null),
         2 => Val::Obj(Obj::empty()),
-        _ => Val::Obj(Obj::one("interface", Leaf::Str(Txt::new("a.b")))),
+        _ => Val::Obj(Obj::one("interface", Leaf::Str(Txt::new(iface)))),
     };
     let (mo, more) = flag_val(nd, MASK & 2 != 0);
     let members: [(&str, Val); 3] = [
@@ -327,7 +330,7 @@ pub fn service_method_decode<const MASK: usize, const ORD: usize>(nd: &mut Nd) {
         }
         (1, 3) => {
             assert!(
-                matches!(&r, Ok(c) if matches!(c.method(), varlink_service::Method::GetInterfaceDescription { interface } if *interface == "a.b") && c.more() == more),
+                matches!(&r, Ok(c) if matches!(c.method(), varlink_service::Method::GetInterfaceDescription { interface } if interface.as_bytes() == ib) && c.more() == more),
                 "C05.service_method_with_parameters_decodes"
             );
         }
@@ -472,12 +475,14 @@ pub fn error_encode_roundtrip(nd: &mut Nd) {
 /// Derived error enum decoded from `error` plus the members selected by MASK (bit 0
 /// `parameters`, bit 1 an unknown member `x`) in the ORD-th order; field-less variants with
 /// `parameters` absent, null or `{}`.
-pub fn error_decode_order<const MASK: usize, const ORD: usize>(nd: &mut Nd) {
+pub fn error_decode_order<const MASK: usize, const ORD: usize, const CASE: usize>(nd: &mut Nd) {
     let (k, order) = layout(MASK, ORD, 3);
     let has_params = MASK & 1 != 0;
     let which = nd.below(5);
     let v = nd.u32();
-    let spelling = if has_params { nd.range(1, 3) } else { 0 };
+    // Shape of the parameters member, fixed by the instance: 0 absent, 1 null, 2 {}, 3 {code},
+    // 4 {wireName}, 5 {msg}, 6 {msg, opt}.
+    let spelling = if has_params { CASE + 1 } else { 0 };
     // equal lengths keep the string comparisons over a concrete length
     let name = match which {
         0 => "org.ex.Unit",
@@ -490,19 +495,16 @@ pub fn error_decode_order<const MASK: usize, const ORD: usize>(nd: &mut Nd) {
         0 => Val::Absent,
         1 => Val::Leaf(Leaf::Null),
         2 => Val::Obj(Obj::empty()),
-        _ => match which {
-            2 => Val::Obj(Obj::one("wireName", Leaf::Num(v as u64))),
-            3 => {
-                let mut o = Obj::one("msg", Leaf::Str(Txt::new("hi")));
-                if nd.bool() {
-                    o.n = 2;
-                    o.keys[1] = Txt::new("opt");
-                    o.vals[1] = Leaf::Num(v as u64);
-                }
-                Val::Obj(o)
-            }
-            _ => Val::Obj(Obj::one("code", Leaf::Num(v as u64))),
-        },
+        3 => Val::Obj(Obj::one("code", Leaf::Num(v as u64))),
+        4 => Val::Obj(Obj::one("wireName", Leaf::Num(v as u64))),
+        5 => Val::Obj(Obj::one("msg", Leaf::Str(Txt::new("hi")))),
+        _ => {
+            let mut o = Obj::one("msg", Leaf::Str(Txt::new("hi")));
+            o.n = 2;
+            o.keys[1] = Txt::new("opt");
+            o.vals[1] = Leaf::Num(v as u64);
+            Val::Obj(o)
+        }
     };
     let x = extra_val(nd, MASK & 2 != 0);
     let members: [(&str, Val); 3] = [
@@ -516,15 +518,16 @@ pub fn error_decode_order<const MASK: usize, const ORD: usize>(nd: &mut Nd) {
         (0, 0) | (0, 1) => assert!(matches!(&r, Ok(ErrA::Unit)), "C05.fieldless_error_decodes_with_parameters_absent_or_null"),
         (0, 2) => assert!(matches!(&r, Ok(ErrA::Unit)), "C05.fieldless_error_decodes_with_empty_object_parameters"),
         (1, 3) => assert!(matches!(&r, Ok(ErrA::Code { code }) if *code == v), "C05.error_decodes_in_any_member_order"),
-        (2, 3) => assert!(matches!(&r, Ok(ErrA::Rena { rust_name }) if *rust_name == v), "C05.error_decodes_renamed_field_in_any_member_order"),
-        (3, 3) => assert!(matches!(&r, Ok(ErrA::Msgs { msg, .. }) if *msg == "hi"), "C05.error_decodes_in_any_member_order"),
-        (1, _) | (2, _) | (3, _) => assert!(r.is_err(), "C05.error_with_missing_fields_is_rejected"),
+        (2, 4) => assert!(matches!(&r, Ok(ErrA::Rena { rust_name }) if *rust_name == v), "C05.error_decodes_renamed_field_in_any_member_order"),
+        (3, 5) => assert!(matches!(&r, Ok(ErrA::Msgs { msg, opt: None }) if *msg == "hi"), "C05.error_decodes_in_any_member_order"),
+        (3, 6) => assert!(matches!(&r, Ok(ErrA::Msgs { msg, opt: Some(o) }) if *msg == "hi" && *o == v), "C05.error_decodes_in_any_member_order"),
+        (1, 0..=2) | (2, 0..=2) | (3, 0..=2) => assert!(r.is_err(), "C05.error_with_missing_fields_is_rejected"),
         (4, _) => assert!(r.is_err(), "C05.undeclared_error_name_is_rejected"),
         _ => {}
     }
     xcheck!(ErrA<'_>, &m, r.is_ok());
-    if has_params {
-        cover!(nd, r.is_ok() && which == 3, "borrowed message decoded");
+    if has_params && CASE >= 2 {
+        cover!(nd, r.is_ok() && which != 0, "struct variant decoded");
     } else {
         cover!(nd, r.is_ok() && which == 0, "unit variant decoded");
     }
@@ -533,21 +536,24 @@ pub fn error_decode_order<const MASK: usize, const ORD: usize>(nd: &mut Nd) {
 
 /// The standard service errors: unit variants with `parameters` absent / null / `{}`; a struct
 /// variant with its field. MASK: bit 0 `parameters`.
-pub fn service_error_decode<const MASK: usize, const ORD: usize>(nd: &mut Nd) {
+pub fn service_error_decode<const MASK: usize, const ORD: usize, const CASE: usize>(nd: &mut Nd) {
     let (k, order) = layout(MASK, ORD, 2);
     let has_params = MASK & 1 != 0;
-    let which = nd.below(3);
-    let spelling = if has_params { nd.range(1, 3) } else { 0 };
+    // CASE = 3 * (spelling - 1) + which for instances with a parameters member, which otherwise
+    let which = CASE % 3;
+    let spelling = if has_params { CASE / 3 + 1 } else { 0 };
     let name = match which {
         0 => "org.varlink.service.PermissionDenied",
         1 => "org.varlink.service.ExpectedMore",
         _ => "org.varlink.service.MethodNotFound",
     };
+    let mb = [nd.ascii()];
+    nd.assume(mb[0].is_ascii_alphabetic());
     let params = match spelling {
         0 => Val::Absent,
         1 => Val::Leaf(Leaf::Null),
         2 => Val::Obj(Obj::empty()),
-        _ => Val::Obj(Obj::one("method", Leaf::Str(Txt::new("a.B")))),
+        _ => Val::Obj(Obj::one("method", Leaf::Str(Txt::new(crate::nd::str_of(&mb))))),
     };
     let members: [(&str, Val); 2] = [("error", Val::Leaf(Leaf::Str(Txt::new(name)))), ("parameters", params)];
     let m = build(&members, k, &order);
@@ -561,7 +567,7 @@ pub fn service_error_decode<const MASK: usize, const ORD: usize>(nd: &mut Nd) {
         (0, 0) | (0, 1) | (1, 0) | (1, 1) => assert!(unit_ok, "C05.service_error_without_parameters_decodes_absent_or_null"),
         (0, 2) | (1, 2) => assert!(unit_ok, "C05.service_error_without_parameters_decodes_empty_object"),
         (2, 3) => assert!(
-            matches!(&r, Ok(varlink_service::Error::MethodNotFound { method }) if method.as_str() == "a.B"),
+            matches!(&r, Ok(varlink_service::Error::MethodNotFound { method }) if method.as_bytes() == mb),
             "C05.service_error_with_parameters_decodes"
         ),
         (2, _) => assert!(r.is_err(), "C05.error_with_missing_fields_is_rejected"),
